@@ -640,7 +640,34 @@ func Exec(in *bufio.Scanner, out *bufio.Writer) {
 					res = "1"
 				}
 			}
-		case len(f) == 1 && f[0] == "stop", len(f) == 2 && f[0] == "stopfeed":
+		case len(f) == 1 && f[0] == "stop", len(f) == 2 && f[0] == "stopfeed", len(f) == 3 && f[0] == "stopfeed2":
+			var settle time.Duration
+			if f[0] == "stopfeed2" {
+				// two datagrams from the peer during Stop: the first while Stop waits for the tubes (the muxer
+				// is stopping, the receiver has time to handle it), the second after the send queues were closed
+				b1, ok1 := Unhex(f[1])
+				b2, ok2 := Unhex(f[2])
+				if !ok1 || !ok2 || len(b1) > 65535 || len(b2) > 65535 {
+					break
+				}
+				var once1, once2 sync.Once
+				conn := s.conn
+				settle = 0
+				tubes.SetVerifYield(func(site string) {
+					switch site {
+					case "Muxer.Stop.waiting":
+						once1.Do(func() { conn.Feed(b1); time.Sleep(60 * time.Millisecond) })
+					case "Muxer.Stop.queuesClosed":
+						once2.Do(func() {
+							if !conn.Feed(b2) {
+								settle = 700 * time.Millisecond // the receiver is still busy with it (or gone)
+							}
+							time.Sleep(60 * time.Millisecond)
+						})
+					}
+				})
+				defer tubes.SetVerifYield(nil)
+			}
 			if f[0] == "stopfeed" {
 				// Stop with a datagram from the peer arriving at a chosen moment: after Stop has closed
 				// the muxer's send queues and before it closes the transport (the receiver still runs)
@@ -666,6 +693,8 @@ func Exec(in *bufio.Scanner, out *bufio.Writer) {
 			select {
 			case <-done:
 				res = "ok"
+				// a receiver that was still working on the last datagram finishes (or crashes) within this operation
+				time.Sleep(settle)
 			case <-time.After(wd):
 				res = "stuck"
 				if dir := os.Getenv("HV_STUCK_DUMP"); dir != "" {
